@@ -247,7 +247,8 @@ func init() {
 				newH := firstSow - Day(r.Range(1, 4))
 				prevLine := w.autoLine(w.Rot[i-1].Crop)
 				curLine := w.autoLine(cur.Crop)
-				if newH.Year() == w.Rot[i-1].Harvest.Year() && newH > w.Rot[i-1].Harvest && prevLine != nil && curLine != nil && w.Rot[i-1].Crop != cur.Crop {
+				// the rotation file must keep its dates ascending: the moved harvest stays before the file's next sowing date
+				if newH.Year() == w.Rot[i-1].Harvest.Year() && newH > w.Rot[i-1].Harvest && newH < cur.Sow && prevLine != nil && curLine != nil && w.Rot[i-1].Crop != cur.Crop {
 					savedRot, savedPrev, savedCur := w.Rot[i-1], *prevLine, *curLine
 					w.Rot[i-1].Harvest = newH
 					_, prevLine.Har2M, prevLine.Har2D = newH.YMD()
